@@ -1,7 +1,8 @@
 /-
 C13 — model of the API mapper
   apimapper/formater/formater.go        (IsValidMethod = isValidRequest || isValidNotify)
-  apimapper/apientry/container.go       (NewContainer, suitableHandlerMethods, ExtractHandler, CallMethod, SafeCall)
+  apimapper/apientry/container.go       (NewContainer, suitableHandlerMethods, ExtractHandler, CallMethod with its closures
+                                         handlerCB / panicCB around `completed` (fix of D23), SafeCall)
   apimapper/apientry/collection.go      (Build/newService, splitRoute, GetArgType/HasMethod, Call)
   apimapper/apientry/caller.go          (CallWithSerialize)
   apimapper/apientry/utils.go           (isExported, makeValueMaybeNil, CheckInvokeCBFunc, ToLowerCamelCase)
@@ -386,8 +387,27 @@ def playComps (cbPanics : Bool) : List Bool → List Comp × Bool
     if c && cbPanics then ([], true)
     else let (l, p) := playComps cbPanics r; (Comp.h c :: l, p)
 
-/-- completions of the callback of one call, in order -/
+/-- completions of the callback of one call, in order.  A request-shaped handler is handed `CallMethod`'s wrapper
+`handlerCB` (call `cbFunc`, THEN remember `completed = true`), and `SafeCall`'s recover path is handed `panicCB`
+(`if !completed { cbFunc(e, result) }`): after a panic (of the handler, or of a picky callback inside it) the framework's
+own "panic in rpc" completion `.f` is made iff NO completion of the handler went through before (`l` is empty) -/
 def completionsG (cbPanics : Bool) (o : Outcome) (hasCb : Bool) (b : Beh) : List Comp :=
+  if !hasCb then []
+  else match o with
+    | .fwErr | .recovered => [.f]
+    | .nothing | .escaped => []
+    | .invoked h _ _ =>
+      if h.isRequest then
+        let (l, p) := playComps cbPanics b.comps
+        l ++ (if (p || b.panics) && l.isEmpty then [.f] else [])
+      else (if b.panics then [.f] else [])
+
+def completions (o : Outcome) (hasCb : Bool) (b : Beh) : List Comp := completionsG false o hasCb b
+
+/-- the code BEFORE the fix of D23 (/repo 7b326e6): the handler was handed `cbFunc` itself and the recover path
+completed `cbFunc` unconditionally — a handler that completed and then panicked was completed a second time
+(`Props.C13.prefix_complete_then_panic_completed_twice`).  Kept as a definition of its own for that witness only -/
+def completionsGPre (cbPanics : Bool) (o : Outcome) (hasCb : Bool) (b : Beh) : List Comp :=
   if !hasCb then []
   else match o with
     | .fwErr | .recovered => [.f]
@@ -398,11 +418,12 @@ def completionsG (cbPanics : Bool) (o : Outcome) (hasCb : Bool) (b : Beh) : List
         l ++ (if p || b.panics then [.f] else [])
       else (if b.panics then [.f] else [])
 
-def completions (o : Outcome) (hasCb : Bool) (b : Beh) : List Comp := completionsG false o hasCb b
+/-- handler discipline the exactly-once guarantee presupposes: the handler completes exactly once (and then returns
+OR PANICS: since the fix of D23 the panic is not answered a second time), or panics before completing -/
+def Beh.disciplined (b : Beh) : Bool := (b.comps.length == 1) || (b.comps.isEmpty && b.panics)
 
-/-- handler discipline the exactly-once guarantee presupposes: the handler either
-completes exactly once and returns, or panics before completing -/
-def Beh.disciplined (b : Beh) : Bool := (b.comps.length == 1 && !b.panics) || (b.comps.isEmpty && b.panics)
+/-- the discipline hypothesis as it had to be before the fix of D23 (complete-then-panic excluded); implies `disciplined` -/
+def Beh.disciplinedPre (b : Beh) : Bool := (b.comps.length == 1 && !b.panics) || (b.comps.isEmpty && b.panics)
 
 /-! ## service dispatcher (actorex/service/api.go) -/
 
@@ -470,31 +491,89 @@ def checkInvokeCB (cb : Cb) : Exec :=
   | none => .ret
   | some picky => invokeCb picky false true false
 
-/-- the completions a handler body makes, in order (user code, scripted by `Beh.comps`) -/
-def playBody (cb : Cb) (bad : Bool) : List Bool → Exec
-  | [] => .ret
-  | c :: r => (match cb with | none => Exec.ret | some picky => invokeCb picky true (!c) bad).andThen (playBody cb bad r)
+/-- a function value of type `HandlerCBFunc` as `CallMethod` / `SafeCall` / the handler see it: nil, the caller's
+`cbFunc` itself (`picky` as in `Cb`), or one of the two closures `CallMethod` builds around `cbFunc` for a
+request-shaped handler — both close over the local variable `completed` (threaded explicitly below) -/
+inductive CbF
+  | nil
+  | plain (picky : Bool)        -- cbFunc
+  | handlerCB (picky : Bool)    -- func(e, result) { cbFunc(e, result); completed = true }
+  | panicCB (picky : Bool)      -- func(e, result) { if !completed { cbFunc(e, result) } }
+  deriving DecidableEq, Repr
+
+def CbF.isNil : CbF → Bool
+  | .nil => true
+  | _ => false
+
+/-- the function as `CallMethod` received it from its caller -/
+def CbF.ofCb : Cb → CbF
+  | none => .nil
+  | some picky => .plain picky
+
+/-- one call `f(e, result)` with the variable `completed` before it: (what happens, `completed` after it).
+`handlerCB`: the assignment `completed = true` is reached only when `cbFunc` RETURNED (a picky `cbFunc` that panics
+leaves `completed` as it was); `panicCB`: `cbFunc` is called only while `completed` is false.  (A nil function is
+never called: `CheckInvokeCBFunc` and the handlers test for nil first) -/
+def CbF.call (f : CbF) (byHandler isErr bad completed : Bool) : Exec × Bool :=
+  match f with
+  | .nil => (.ret, completed)
+  | .plain picky => (invokeCb picky byHandler isErr bad, completed)
+  | .handlerCB picky =>
+    let x := invokeCb picky byHandler isErr bad
+    (x, if x.panicking then completed else true)
+  | .panicCB picky =>
+    if !completed then (invokeCb picky byHandler isErr bad, completed) else (.ret, completed)
+
+/-- `CheckInvokeCBFunc(f, errors.New(…), nil)` for any function value: nil-check, then the call, always with an error -/
+def checkInvokeF (f : CbF) (completed : Bool) : Exec :=
+  if f.isNil then .ret else (f.call false true false completed).1
+
+/-- the completions a handler body makes through the function it was handed, in order (user code, scripted by
+`Beh.comps`; `c` = with a value); a panic of the function ends the body there.  Threads `completed` -/
+def playBody (f : CbF) (bad : Bool) : List Bool → Bool → Exec × Bool
+  | [], d => (.ret, d)
+  | c :: r, d =>
+    let x := f.call true (!c) bad d
+    if x.1.panicking then x
+    else let y := playBody f bad r x.2; (x.1.andThen y.1, y.2)
 
 /-- a handler body: entered, completes per script, then possibly panics -/
-def handlerBody (h : Handler) (ctxSet : Bool) (arg : ArgV) (cb : Cb) (b : Beh) : Exec :=
-  (Exec.emit (.run h ctxSet arg)).andThen ((playBody cb b.bad b.comps).andThen (if b.panics then .panic else .ret))
+def handlerBody (h : Handler) (ctxSet : Bool) (arg : ArgV) (f : CbF) (b : Beh) (completed : Bool) : Exec × Bool :=
+  let y := playBody f b.bad b.comps completed
+  ((Exec.emit (.run h ctxSet arg)).andThen (y.1.andThen (if b.panics then .panic else .ret)), y.2)
 
-/-- `handler.Method.Func.Call(args)`: reflect panics on an argument list it rejects, else the body runs -/
-def reflectCall (h : Handler) (ctx : CtxArg) (arg : ArgV) (withCb : Bool) (cb : Cb) (b : Beh) : Exec :=
-  if typesOK h ctx arg withCb then handlerBody h (ctx != .nil) arg (if withCb then cb else none) b else .panic
+/-- `handler.Method.Func.Call(args)`: reflect panics on an argument list it rejects (nothing ran: `completed` is
+untouched), else the body runs with the 4th argument `f` (a notify-shaped handler has none) -/
+def reflectCall (h : Handler) (ctx : CtxArg) (arg : ArgV) (withCb : Bool) (f : CbF) (b : Beh) (completed : Bool) : Exec × Bool :=
+  if typesOK h ctx arg withCb then handlerBody h (ctx != .nil) arg (if withCb then f else .nil) b completed else (.panic, completed)
 
-/-- `SafeCall` -/
-def safeCallX (h : Handler) (ctx : CtxArg) (arg : ArgV) (withCb : Bool) (cb : Cb) (b : Beh) : Exec :=
-  (reflectCall h ctx arg withCb cb b).recoverWith (checkInvokeCB cb)
+/-- `SafeCall(handler, args, cbFunc)`: `hcb` is the function inside `args` (the handler's 4th argument), `pcb` the
+`cbFunc` the deferred recover completes with "panic in rpc" — it sees `completed` as the call left it -/
+def safeCallX (h : Handler) (ctx : CtxArg) (arg : ArgV) (withCb : Bool) (hcb pcb : CbF) (b : Beh) (completed : Bool) : Exec :=
+  let r := reflectCall h ctx arg withCb hcb b completed
+  r.1.recoverWith (checkInvokeF pcb r.2)
 
-/-- `APIContainer.CallMethod` -/
+/-- `APIContainer.CallMethod`: `panicCB := cbFunc`; for a request-shaped handler `handlerCB := cbFunc` and, when
+`cbFunc != nil`, `completed := false` and the two closures; a notify-shaped handler with a completion function is D11 -/
 def callMethodX (c : Container) (method : Bytes) (ctx : CtxArg) (arg : ArgV) (cb : Cb) (b : Beh) : Exec :=
   match lookup c.handlers method with
   | none => checkInvokeCB cb
   | some h =>
-    if h.isRequest then safeCallX h ctx arg true cb b
+    if h.isRequest then
+      match cb with
+      | none => safeCallX h ctx arg true .nil .nil b false                            -- nil to both
+      | some picky => safeCallX h ctx arg true (.handlerCB picky) (.panicCB picky) b false
     else if cb.isSome then .ret                          -- D11
-    else safeCallX h ctx arg false cb b
+    else safeCallX h ctx arg false .nil .nil b false     -- panicCB = cbFunc = nil
+
+/-- `CallMethod` BEFORE the fix of D23 (/repo 7b326e6): the handler and the recover path both got `cbFunc` itself -/
+def callMethodXPre (c : Container) (method : Bytes) (ctx : CtxArg) (arg : ArgV) (cb : Cb) (b : Beh) : Exec :=
+  match lookup c.handlers method with
+  | none => checkInvokeCB cb
+  | some h =>
+    if h.isRequest then safeCallX h ctx arg true (.ofCb cb) (.ofCb cb) b false
+    else if cb.isSome then .ret
+    else safeCallX h ctx arg false (.ofCb cb) (.ofCb cb) b false
 
 /-- `APICollection.Call` -/
 def callX (col : Collection) (route : Bytes) (ctx : CtxArg) (arg : ArgV) (cb : Cb) (b : Beh) : Exec :=
